@@ -208,3 +208,39 @@ mapspec_input_keys = Contract(
 )
 
 ALL += [mapspec_external_indices, mapspec_input_keys]
+
+
+# ---- _validate_shapes / MapSpec.shape (C08, C12) ----------------------------------------------------------------------
+from pyvc.types import TOpt as _TOpt, TSet as _TSet2  # noqa: E402
+
+ShapeDict = _TDict(TStr, SI)
+
+
+def _vs_raises(S, a):
+    ins = a.inputs
+    extra = S.exists_in_dict(a.input_shapes, lambda k: S.not_(S.in_set(a.input_names, k)))
+    missing = S.exists_in_set(a.input_names, lambda k: S.not_(S.has(a.input_shapes, k)))
+    rank = S.exists(0, S.len(ins), lambda i: S.and_(S.has(a.input_shapes, ins[i].name), lambda: S.len(
+        a.input_shapes[ins[i].name]) != S.len(ins[i].axes)))
+    internal = S.and_(S.not_(S.is_none(a.internal_shapes)), lambda: S.exists_in_dict(
+        S.some(a.internal_shapes), lambda k: S.not_(S.contains(a.output_names, k))))
+    return S.or_(extra, missing, rank, internal)
+
+
+validate_shapes = Contract(
+    f"{F}::_validate_shapes",
+    params={"input_names": _TSet2(TStr), "input_shapes": ShapeDict, "inputs": SArraySpec,
+            "internal_shapes": _TOpt(ShapeDict), "output_names": SS},
+    returns=None,
+    requires=lambda S, a: {"the inputs' names are the expected names": S.forall(
+        0, S.len(a.inputs), lambda i: S.in_set(a.input_names, a.inputs[i].name))},
+    raises=[("ValueError", _vs_raises)],
+    loops={
+        0: LoopSpec(lambda S, a, v, k: {"ranks-ok-so-far": S.forall(0, k, lambda i: S.len(
+            a.input_shapes[a.inputs[i].name]) == S.len(a.inputs[i].axes))}),
+        1: LoopSpec(lambda S, a, v, k: {"names-ok-so-far": S.forall(0, k, lambda i: S.contains(a.output_names, v._at(i)))}),
+    },
+    note="raises exactly for: a shape for an array the map does not take, an expected array without a shape, a shape "
+         "whose rank differs from the array's spec, an internal shape for a name that is not an output",
+)
+ALL += [validate_shapes]
